@@ -38,7 +38,11 @@ func hC02Check(src string) {
 	}
 	y := m.String()
 	vfObserveStr("y", y)
+	// the second parse runs under the reversed iteration order of every map of
+	// the translator: a fixpoint that holds only for one map order is none
+	vfMapOrder(1)
 	m2, err2 := ParseString("y.ll", y)
+	vfMapOrder(0)
 	vfAssert("C02.output-accepted", err2 == nil)
 	if err2 != nil {
 		return
@@ -262,5 +266,34 @@ func VfC02_Unnamed() {
 		src += hUnnamedEntity(k, "@"+string(rune('0'+i)))
 	}
 	src += "@t = global i32 7\n@user = global i8* bitcast (i32* @t to i8*)\ndeclare void ()* @res()\n"
+	hC02Check(src)
+}
+
+// VfC02_CaseNames: type definitions, comdats and named metadata whose names
+// differ only in the case of a (symbolic) letter, or only by a trailing digit
+// run with leading zeros, in both textual orders: the printed text is a
+// fixpoint whatever the map order of the second parse (names that the order of
+// the printer does not separate would keep the order of a map).
+//
+//vf:unwind 300
+func VfC02_CaseNames() {
+	l := hLetterIn("letter", 'a', 'z')
+	u := string(rune(l[0] - 32))
+	n1, n2 := "k"+l+"y", "k"+u+"y"
+	if vfChoice("variant", 2) == 1 {
+		n1, n2 = l+"7", l+"07"
+	}
+	if vfChoice("order", 2) == 1 {
+		n1, n2 = n2, n1
+	}
+	var src string
+	switch vfChoice("kind", 3) {
+	case 0:
+		src = "%" + n1 + " = type { i32 }\n%" + n2 + " = type { i64 }\n@g = global %" + n1 + " zeroinitializer\n@h = global %" + n2 + " zeroinitializer\n"
+	case 1:
+		src = "$" + n1 + " = comdat any\n$" + n2 + " = comdat largest\n@g = global i32 0, comdat($" + n1 + ")\n@h = global i32 0, comdat($" + n2 + ")\n"
+	default:
+		src = "!" + n1 + " = !{!0}\n!" + n2 + " = !{!1}\n!0 = !{}\n!1 = !{!0}\n"
+	}
 	hC02Check(src)
 }
